@@ -14,3 +14,29 @@ def run(ctx):
     if not q:
         parts.append(Part('bundled', 'corr_meta', 'run_laws_bundled', [s]))
     return run_parts(ctx, parts, RULE)
+
+
+def search(ctx):
+    """After a broken obligation: look for joins that lose or invent a pair on the skewed / boundary
+    streams and examine the three laws on exactly those calls; then fall back to fresh seeds."""
+    import corr_joins as J
+    import corr_meta as M
+    from props import base
+    out = []
+    for k in (1, 2, 3):
+        r = J.run(ctx['seed'] + 31 * k, 250, ['JACCARD', 'COSINE', 'DICE', 'OVERLAP_COEFFICIENT', 'OVERLAP'], 0.3, 0.0)
+        forced = []
+        for c in r.get('failing_calls', []):
+            if c['measure'] == 'EDIT_DISTANCE':
+                continue
+            for law in ('transpose', 'refine', 'partition'):
+                forced.append((c, law))
+        if forced:
+            lr = M.run_laws(ctx['seed'], 0, forced[:90])
+            for sf in lr['spec_fail']:
+                out.append({'what': '%s fails on the implementation (law examined on a call where the join and its model/spec disagree)' % sf['which'],
+                            'class': {'kind': sf['which'], 'entry': sf['call'].get('call', {}).get('measure')},
+                            'call': base.small(sf['call'])})
+            if out:
+                return out[:3]
+    return base.default_search(__import__('props.C13', fromlist=['x']), ctx)
